@@ -190,6 +190,12 @@ func Atlas() []*spec.Program {
 			// a plain field whose name sorts between a branch of Third (BoolBranch) and a branch of OneOf (Branch1)
 			F("Bpm", "int32"),
 			F("After", "int32"))
+		{
+			// the LAST declared branch of two of the groups is excluded: the groups are still reset and read
+			xcfg := baseConfig("OneOfs", "Wrap")
+			xcfg.ExcludeFields = []string{"OneOfs.Branch3", "OneOfs.EnumBranch"}
+			out = append(out, prog("a_oneof_exlast", append([]string{"C07"}, convProps...), xcfg, en, b1, b2, em, oo, wrap("Wrap", "OneOfs")))
+		}
 		out = append(out, prog("a_oneof", append([]string{"C07"}, convProps...), baseConfig("OneOfs", "Wrap"), en, b1, b2, em, oo, wrap("Wrap", "OneOfs")))
 	}
 	// --- embedded, non nullable
@@ -328,13 +334,14 @@ func Atlas() []*spec.Program {
 			F("CastCfg", "string", cast("CastString")),
 			F("CastCfgList", "int64", rep(), cast("CastInt64")),
 			// custom by proto option and by configuration at once: the configuration's type (and its suffix) counts
+			F("ByConfigMap", "map:string"),
 			F("Both", "bytes", custom("CustomBytes"), nn()),
 			F("BothList", "bool", rep(), custom("CustomBool")),
 			F("Plain", "string"))
 		cfg := baseConfig("Customs")
 		// near-miss keys: only an exact key is a suffix entry / a custom type entry
 		cfg.Suffixes = map[string]string{"CustomBool": "Bool_Special", "CastLabel": "Lbl_v2", "FlagSet": "Flg", "IntList": "DecoyA", "pkg.IntList": "DecoyB", "custombool": "DecoyCase", "Custom": "DecoyPrefix"}
-		cfg.CustomTypes = map[string]string{"Customs.ByConfig": "StringCustom", "Customs.ByConfigList": "some/pkg.IntList", "Customs.CastCfg": "CastLabel", "Customs.CastCfgList": "CastInts", "Customs.Both": "OtherFamily", "Customs.BothList": "FlagSet", "ByConfig": "DecoyType", "Customs.Plain.": "DecoyType", "customs.plain": "DecoyType"}
+		cfg.CustomTypes = map[string]string{"Customs.ByConfig": "StringCustom", "Customs.ByConfigList": "some/pkg.IntList", "Customs.CastCfg": "CastLabel", "Customs.CastCfgList": "CastInts", "Customs.Both": "OtherFamily", "Customs.ByConfigMap": "LabelsMap", "Customs.BothList": "FlagSet", "ByConfig": "DecoyType", "Customs.Plain.": "DecoyType", "customs.plain": "DecoyType"}
 		cfg.ComputedFields = []string{"Customs.CustP", "Customs.ByConfig"}
 		cfg.RequiredFields = []string{"Customs.CustStr"}
 		cfg.SensitiveFields = []string{"Customs.CustList", "Customs.ByConfig"}
